@@ -28,6 +28,12 @@ package keeper
 // ---- C02: settlement arithmetic -------------------------------------------
 
 //@ func accountSettleFullblocks
+//@   uses sumRateFrame
+//@   ensures [sumsame] sumRate(payments, len(payments)) == old(sumRate(payments, len(payments)))
+//@   ensures [sharefull] !result2 ==> (forall i: int :: 0 <= i && i < len(payments) ==>
+//@              payments[i] == upd(old(payments[i]), Balance.Amount, old(payments[i].Balance.Amount) + old(payments[i].Rate.Amount) * heightDelta))
+//@   ensures [acctfull] !result2 ==> result0.Balance.Amount == account.Balance.Amount - blockRate.Amount * heightDelta
+//@              && result0.Transferred.Amount == account.Transferred.Amount + blockRate.Amount * heightDelta
 //@   requires heightDelta > 0 && account.Balance.Amount >= 0 && blockRate.Amount > 0
 //@   requires blockRate.Amount == sumRate(payments, len(payments))
 //@   requires forall i: int :: 0 <= i && i < len(payments) ==> payments[i].Rate.Amount >= 0 && payments[i].Balance.Amount >= 0
@@ -96,7 +102,7 @@ package keeper
 //@                 old(payments[j].Balance.Amount) + baseAmt + ite(j < numOverflow, 1, 0))
 //@   loop 1 invariant forall j: int :: iter <= j && j < len(payments) ==> payments[j] == old(payments[j])
 
-//@ property C02 := lemma:sumRateFrame, accountSettleFullblocks#*, accountSettleDistributeWeighted#*, accountSettleDistributeEvenly#*
+//@ property C02 := (*keeper).doAccountSettle#*, lemma:sumRateFrame, accountSettleFullblocks#*, accountSettleDistributeWeighted#*, accountSettleDistributeEvenly#*
 
 // ---- store layout ----------------------------------------------------------
 
